@@ -122,6 +122,12 @@ def c02_violations(sess, cands, tr, step, aborted=False):
                         hi = max(norm_range(arr, x)[1] for x in range(c0, c1))
                     if not (lo - 1e-12 <= o['price'] <= hi + 1e-12):
                         out.append(('filled-outside-range', k, dict(o, minute=j, range=[lo, hi])))
+                    elif step != 1:
+                        # the fast simulator stamps a fill with its own minute as well (the clock is set to the end of the
+                        # minute that reached the order): that minute's range must contain the price, not just the chunk's
+                        lo1, hi1 = norm_range(arr, j)
+                        if not (lo1 - 1e-12 <= o['price'] <= hi1 + 1e-12):
+                            out.append(('filled-outside-minute-range', k, dict(o, minute=j, range=[lo1, hi1])))
                 if o['filled'] < o['submitted']:
                     out.append(('filled-before-submission', k, o))
                 if o['cancelled'] is not None:
